@@ -138,6 +138,21 @@ Theorem C01_tool_complete :
 Proof. exact dedupe_tool_real_spec. Qed.
 Print Assumptions C01_tool_complete.
 
+(* ... and in terms of line CONTENT: the complete tool drops a line iff an earlier line has the same
+   cut-selected fields (the whole line for the default -f 1-), for lines containing every selected field,
+   absent a 64-bit collision among the selections occurring in the input (explicit hypothesis). *)
+Theorem C01_dropped_iff_same_selected_fields :
+  forall rs d (pre : list (list Z)) (l : list Z),
+  canonical rs ->
+  (forall x, In x (l :: pre) -> contains_all (Z.of_nat (length (split_fields d x))) rs) ->
+  (forall x y, In x (l :: pre) -> In y (l :: pre) ->
+     Z.to_N (hash_fold dedupe_field_seed (spec_pieces d x rs)) = Z.to_N (hash_fold dedupe_field_seed (spec_pieces d y rs)) ->
+     spec_pieces d x rs = spec_pieces d y rs) ->
+  (mem (key_fn rs d l) (map (key_fn rs d) pre) = true <->
+   exists x, In x pre /\ select (split_fields d x) rs = select (split_fields d l) rs).
+Proof. exact dropped_iff_same_selected_fields. Qed.
+Print Assumptions C01_dropped_iff_same_selected_fields.
+
 (* "a\nb\na\n" through the whole model with real MurmurHash64A keys: the repeat is dropped;
    with -f 2 and TAB the key is the second field only *)
 Example C01_nonvacuous_complete :
